@@ -104,6 +104,8 @@ def main():
             k = ast[0]
             if k == "prim":
                 return "prim:" + ast[1]
+            if k == "void":
+                return "void"
             if k == "struct":
                 return "struct:" + ast[1]
             if k == "ptr" and ast[1][0] == "fn":
@@ -165,7 +167,9 @@ def main():
             k = op[0]
             if k == "ffi":
                 f = cffi.FFI()
-                f.cdef("struct node%s { struct node%s *next; int v; };" % (op[1], op[1]))
+                f.cdef("struct node%s { struct node%s *next; int v; };"
+                       "typedef int vec_t[5]; typedef void fn_t(vec_t); typedef long lvec_t[2]; "
+                       "typedef short fn2_t(lvec_t, vec_t);" % (op[1], op[1]))
                 ffis[op[1]] = f
                 del f
             elif k == "typeof":
@@ -199,7 +203,17 @@ def main():
                 args = tuple(R(a) for a in op[1])
                 res = R(op[2])
                 ct = B.new_function_type(args, res, bool(op[3]))
-                got(ct, "fn:%d:(%s):%d:%s" % (serial(res), ",".join(str(serial(a)) for a in args), int(op[3]), ct.abi),
+                # the type asked for: an array parameter means the pointer to its item type (C decay)
+                want = []
+                real = ct.args
+                for i, a in enumerate(args):
+                    if a.kind == "array":
+                        ok = (i < len(real) and real[i].kind == "pointer" and real[i].item is a.item)
+                        want.append(str(serial(real[i])) if ok else "MISMATCH(decayed array expected)")
+                    else:
+                        want.append(str(serial(a)))
+                del real
+                got(ct, "fn:%d:(%s):%d:%s" % (serial(res), ",".join(want), int(op[3]), ct.abi),
                     "fn", (serial(res),) + tuple(serial(a) for a in args))
                 refs[op[4]] = ct
                 del ct, args, res
